@@ -12,7 +12,7 @@ META = {
     "engine": "crash",
     "design_ref": "5/C09",
     "coq_targets": ["Props/Properties_C09.vo", "Crash/CheckR.vo"],
-    "coq_files": ["Crash/Model.v", "Crash/Check.v", "Crash/Proofs.v", "Crash/Inter.v", "Crash/Resurrect.v", "Crash/CheckR.v",
+    "coq_files": ["Crash/Model.v", "Crash/Check.v", "Crash/Proofs.v", "Crash/Inter.v", "Crash/RModel.v", "Crash/Resurrect.v", "Crash/CheckR.v",
                   "Props/Properties_C09.v", "Gen/CrashConsts.v"],
     "theorems": ["C09_no_resurrection_partial", "C09_orphan_blob_resync_refuted", "C09_resync_epoch0_refuted",
                  "C09_lock_revives_removed_refuted", "C09_flush_delete_race_refuted"],
@@ -47,9 +47,9 @@ CORPUS = [
     {"wc": False, "objs": [{"k": 0, "t": 0, "x": 0}, {"k": 2, "t": 0, "x": 1}, {"k": 1, "t": 0, "x": 9}],
      "ops": [{"op": "put", "a": 0}, {"op": "put", "a": 1}, {"op": "epoch", "e": 2}, {"op": "put", "a": 2},
              {"op": "resync", "ord": [1, 0, 2], "e0": True}]},
-    # w3: lock stored for a tombstoned object that has expired
-    {"wc": False, "objs": [{"k": 0, "t": 0, "x": 1}, {"k": 1, "t": 0, "x": 0}, {"k": 2, "t": 0, "x": 0}],
-     "ops": [{"op": "put", "a": 0}, {"op": "put", "a": 1}, {"op": "epoch", "e": 2}, {"op": "put", "a": 2}]},
+    # w3: lock stored for a dropped object (forced garbage mark)
+    {"wc": False, "objs": [{"k": 0, "t": 0, "x": 0}, {"k": 2, "t": 0, "x": 0}],
+     "ops": [{"op": "put", "a": 0}, {"op": "mark", "a": 0, "mk": 0}, {"op": "put", "a": 1}]},
 ]
 
 
@@ -104,7 +104,7 @@ def run(ctx):
         cases = ctx.run_json([binp, "run09"], input="\n".join(json.dumps(h) for h in hs) + "\n")
         ncorpus = 0
     else:
-        nh = 150 if ctx.tier == "quick" else 3000
+        nh = 150 if ctx.tier == "quick" else 1500
         corpus = ctx.run_json([binp, "run09"], input="\n".join(json.dumps(h) for h in CORPUS) + "\n")
         cases = corpus + ctx.run_json([binp, "c09", str(nh)], timeout=3000)
         ncorpus = len(corpus)
@@ -113,7 +113,7 @@ def run(ctx):
         return
     jobs, spans, CH = [], [], 40
     prelude = ("From Coq Require Import List. Import ListNotations.\n"
-               "From NV Require Import Crash.Model Crash.Check Crash.Resurrect Crash.CheckR.\n")
+               "From NV Require Import Crash.Model Crash.Check Crash.RModel Crash.CheckR.\n")
     for off in range(0, len(cases), CH):
         chunk = cases[off:off + CH]
         jobs.append(("c09", prelude + "Definition cases : list case09 := %s.\n" % vlib.coq_list(chunk, coq_case09),
